@@ -149,6 +149,20 @@ theorem startup_policy_counterexample :
     let s := run {} [.startupPolicy (some "min=1,max=4")]
     compSyncB .policy s.l s.r = false ∧ (sync s.l s.r 1).policy = none := by decide
 
+/-- C38-sync-refreshes-heartbeat-stamps: `sync_from_raft` re-stamps `last_heartbeat` of every worker whose
+replicated status is Ready, and the health loop runs it right before `health_sweep`: in Raft mode a sweep
+marks nobody, however long a worker has been silent (so the failover phase is never reached through the
+health loop). For every state and every clock value: -/
+theorem sync_masks_heartbeat_timeouts (l : LState) (r : RState) (now : Nat)
+    (hst : ∀ id e, r.workers.get id = some e → parseStatus e.status ≠ .registering) :
+    sweepMarked (sync l r now) now = [] := sweep_after_sync_marks_nobody l r now hst
+
+/-- … e.g. a worker silent for ten times the time-out: a sweep alone would mark it, the loop's
+sync-then-sweep does not -/
+theorem sync_masks_heartbeat_timeouts_witness :
+    let s := run {} [w1]
+    sweepMarked s.l 150000 = ["w1"] ∧ sweepMarked (step s (.tickSync 150000)).l 150000 = [] := by decide
+
 /-! ### the two repaired defects (witnesses on the code before the `fix:` commits) -/
 
 /-- before the repair a heartbeat recovery Unhealthy → Ready was not proposed: the next
